@@ -121,6 +121,7 @@ pub const FRAGMENTS: &[&str] = &[
     "y",
     // tokens that span input lines (the line break belongs to the token), and an empty line
     "(list \"a",
+    "(list \"a  \t",
     "b\" '|c",
     "d|)",
     "",
@@ -181,7 +182,7 @@ pub fn reference_session(lines: &[&str], predicate: fn(&str) -> bool) -> Result<
                     Ok(Some(Value::Void)) | Ok(None) => {}
                     // (the binary's output is compared line by line)
                     Ok(Some(v)) => out.extend(format!("{}", v).split('\n').map(|l| l.to_string())),
-                    Err(e) => err.push(strip_locations(&format!("{}", e))),
+                    Err(e) => err.push(format!("{}", e)),
                 }
                 pending.clear();
             } else {
@@ -191,25 +192,6 @@ pub fn reference_session(lines: &[&str], predicate: fn(&str) -> bool) -> Result<
         out.push("exited. have a nice day.".to_string());
         Transcript { stdout: out, stderr: err }
     })
-}
-
-/// some messages embed a debug dump of a syntax tree with source positions; the reference REPL
-/// evaluates each form re-rendered on one line, so positions inside messages are not compared
-fn strip_locations(s: &str) -> String {
-    let mut out = String::new();
-    let mut rest = s;
-    while let Some(p) = rest.find("location: Some([") {
-        out.push_str(&rest[..p]);
-        out.push_str("location: _");
-        match rest[p..].find("])") {
-            Some(e) => rest = &rest[p + e + 2..],
-            None => {
-                rest = "";
-            }
-        }
-    }
-    out.push_str(rest);
-    out
 }
 
 pub fn binary_session(lines: &[&str]) -> Result<Transcript, String> {
@@ -225,7 +207,7 @@ pub fn binary_session(lines: &[&str]) -> Result<Transcript, String> {
     if !o.status.success() {
         return Err(format!("binary exited with {:?}; stderr: {}", o.status.code(), String::from_utf8_lossy(&o.stderr)));
     }
-    Ok(Transcript { stdout: split(&o.stdout), stderr: split(&o.stderr).iter().map(|l| strip_locations(l)).collect() })
+    Ok(Transcript { stdout: split(&o.stdout), stderr: split(&o.stderr) })
 }
 
 fn session(i: u64, len: usize) -> Vec<&'static str> {
